@@ -177,6 +177,8 @@ BREAKING += [
                                                   E(INFRA, "def _unwind_ptr(", "def _record_size(duration, dt, inclusive):\n    return max(math.floor(duration / dt) + inclusive, 1)\n\n\ndef _unwind_ptr(")]},
     {"id": "C15-release-test-is-not", "props": ["C15"], "edits": [E("observe/pooling.py", "m is target for group in self.monitors_.values()", "m is not target for group in self.monitors_.values()")]},
     {"id": "C15-release-test-polarity", "props": ["C15"], "edits": [E("observe/pooling.py", "if id(monitor) not in shared:", "if id(monitor) in shared:")]},
+    {"id": "C08-triplet-factor-constant", "props": ["C08"], "edits": [E("learn/trainers/two_factor_stdp.py", "(1.0 + x_b) * x", "(2.0 + x_b) * x")]},
+    {"id": "C09-homeostasis-wrong-updater", "props": ["C09"], "edits": [E("learn/trainers/homeostasis.py", "                cell.updater.bias = (", "                cell.updater.weight = (")]},
 ]
 
 BENIGN = [
